@@ -463,7 +463,9 @@ def check_c22(case, log, oc, labels):
             cap = sorted(caps)
             if [d for d, _ in ref.bw_ev if t0 + L < d < fin]:
                 labels.add("bandwidth-event-inside-transfer")
-            in_tr = [d for d, _ in ref.lat_ev if t0 + L <= d and (d < fin or close(d, fin)) and d > t0]
+            # (as implemented the flow may be slower than the reference: capped by the bandwidth at its creation, see comm-ignores-bandwidth-increase)
+            fin_max = max([fin] + [f for f in fin_capped if not math.isinf(f)])
+            in_tr = [d for d, _ in ref.lat_ev if t0 + L <= d and (d < fin_max or close(d, fin_max)) and d > t0]
             if in_tr:
                 labels.add("latency-event-inside-transfer")
             off = Ref.next_off(ref.lstate_ev, since(t0, max(pl["n"], gl["n"])))
